@@ -890,6 +890,8 @@ func c15Group(a []string) string {
 				if i < len(cs) {
 					err = cs[i].disposeAndSettle()
 				}
+			case 'i':
+				err = c15Inbound(cs, op[1:])
 			case 's':
 				tick += 120
 				done := make(chan struct{})
